@@ -378,23 +378,29 @@ func (c *CharSet) charInCategories(ch rune) bool {
 		// special categories...then unicode
 		if ct.Cat == SpaceCategoryText {
 			if unicode.IsSpace(ch) {
-				// we found a space so we're done
-				// negate means this is a "bad" thing
-				return !ct.Negate
+				// we found a space so we're done, unless this category is
+				// negated: then it says nothing and the other categories decide
+				if !ct.Negate {
+					return true
+				}
 			} else if ct.Negate {
 				return true
 			}
 		} else if ct.Cat == WordCategoryText {
 			if IsWordChar(ch) {
-				return !ct.Negate
+				if !ct.Negate {
+					return true
+				}
 			} else if ct.Negate {
 				return true
 			}
 		} else if unicode.Is(unicodeCategories[ct.Cat], ch) {
 			// if we're in this unicode category then we're done
-			// if negate=true on this category then we "failed" our test
-			// otherwise we're good that we found it
-			return !ct.Negate
+			// if negate=true on this category then it says nothing about ch
+			// and the remaining categories (it's a union) decide
+			if !ct.Negate {
+				return true
+			}
 		} else if ct.Negate {
 			return true
 		}
